@@ -1135,9 +1135,25 @@ def aliases_of(body, local):
     return al
 
 
-def writes_into(body, prov, local):
+def writes_into(body, prov, local, follow_moves=False):
     """calls that write into the buffer held in `local`: [(block, method, [source exprs], Term)]"""
-    al = aliases_of(body, local)
+    # the buffer may have been filled under another name and moved here whole (`let nonce = self.next_nonce()` after the helper was inlined:
+    # caller's local <- helper's return place <- helper's local): writes into any local the value passed through are writes into it
+    srcs = {local}
+    changed = follow_moves
+    while changed:
+        changed = False
+        for b in body.blocks:
+            if b.cleanup:
+                continue
+            for s in b.stmts:
+                if s.k == "a" and s.lhs.is_local() and s.lhs.local in srcs and s.rv.k == "use" and s.rv.ops and s.rv.ops[0].place is not None and \
+                        s.rv.ops[0].place.is_local() and s.rv.ops[0].place.local not in srcs:
+                    srcs.add(s.rv.ops[0].place.local)
+                    changed = True
+    al = set()
+    for l in srcs:
+        al |= aliases_of(body, l)
     out = []
     for bi, t in body.calls():
         if not t.args:
